@@ -94,6 +94,16 @@ REPORTED BY AN INDEPENDENT ENGINEER, reproduced on the unchanged tree:
       excludes from the editing alphabet as an internal hand-off; in every state reachable through the public mutators
       `n.graph is g` implies membership (clause I3 of C01_inv_reachable_fixed), so the raise cannot happen there.
 
+ROUND 6 (seeded C06-r6m2 escaped: register_initializer reserves the value's name in the name authority before add()
+rejects it - no accessor differs right after the call, later generated names do):
+  * twin-history oracle (run_history(..., twin=True)): "a rejected call can be ignored" - deleting a call that raised (it
+    allocates nothing) from the history must leave the final observation of the whole history unchanged; this exposes
+    hidden state left behind by a rejected call (name-authority reservations, ref counters) through later names/flags;
+    tensors are observed through run-independent handles so that two runs of a history agree;
+  * gen_register_rejected: register_initializer with values named val_<k> (accepted, and rejected because owned by
+    another graph / produced / without tensor / name taken), followed by nodes with unnamed outputs added to that graph
+    -> C06-r6m2 caught with a concrete replay (later name val_3 -> val_4); replays always run the twin comparison.
+
 READING.  "every observable property of every reachable IR object" = the accessors of C01's observe_at list for every
 object the history ever created (a superset of the reachable ones), plus object counts.  Hidden state (ref counters,
 name-authority sets) is part of the model-side theorem only; a rejected call that corrupts only hidden state is still
